@@ -403,6 +403,9 @@ def features(prog):
                 for h in heads:
                     if h[0] in cyc or any(reach(c, h[0]) for c in cyc):
                         f["neg_cyclic_in_cycle"] = True
+    # evidence on an atom whose predicate is cyclic or depends on a cyclic predicate: with evidence propagation the engine
+    # substitutes TRUE/FALSE constants for nodes inside the cycle (same FALSE-proof mechanism as KF-A)
+    f["ev_reaches_cycle"] = any(e[0] in cyc or any(reach(e[0], c) for c in cyc) for e, _v in prog["evidence"])
     f["clean"] = not f["contra_cyc"] and not f["neg_cyclic_in_cycle"]
     return f
 
@@ -434,6 +437,8 @@ def refine_with_reference(F, R):
     if getattr(R, "dead_body_in_cycle", False):
         F["contra_cyc"] = True
         F["clean"] = False
+    # a deterministically FALSE body anywhere (not on a cycle): only relevant for zero-probability instance reporting
+    F["contra_any"] = bool(F.get("contra") or F.get("contra_ev") or getattr(R, "dead_body_any", False))
     return F
 
 
